@@ -1077,8 +1077,17 @@ void gen_c08(Gen &g) {
     target = r.range(30, lib_geometry().step * maxq);
   else
     target = r.range(30, 400);
+  if (!huge && mode >= 6 && mode <= 7 && r.chance(1, 25)) {
+    // chunk sizes beyond 16 bits with enough code to reach (and pass) their first boundaries
+    long big = r.coin() ? r.range(65537, 70000) : r.range(70001, 200000);
+    for (Op &op : t.ops)
+      if (op.kind == OP_CHUNK) op.c = big;
+    target = big * r.range(1, 2) + r.range(-40, 400);
+    p.world.step_budget = 2000000000L;
+    t.ops[0].k = target + 300000;
+  }
   std::vector<std::string> prog = gen_exec_program(r, 0, o, target);
-  if (mode >= 6 && mode <= 7 && r.chance(1, 3)) {
+  if (mode >= 6 && mode <= 7 && r.chance(1, 3) && target < 60000) {
     // worst-case padding: long instructions of one length L with L < c < 2L, so that every chunk holds one
     // instruction and c - L bytes of padding; the output per line is far above the instruction length
     long L = r.range(7, 11);
